@@ -4,7 +4,8 @@
    shapes up to norm / schema_equiv (def_matches, evaluated on the regenerated constants elsewhere). *)
 From Coq Require Import List Bool ZArith String Ascii Arith Lia.
 Import ListNotations.
-From HV Require Import lib.Harness model.Schema model.SerialHugr model.DocJson proofs.SchemaP.
+From HV Require Import lib.Harness model.Schema model.SchemaStrip model.SerialHugr model.DocJson proofs.SchemaP
+  proofs.SchemaStripP.
 Open Scope string_scope.
 
 Lemma forallb_map_true {A} (f : A -> json) (P : json -> bool) (l : list A) :
@@ -26,26 +27,9 @@ Section Objects.
     chk_object V root [("maxItems", JNum 2); ("minItems", JNum 2); ("prefixItems", JArr [a; b]); ("type", JStr "array")]
       (JArr [x; y]) = true.
   Proof. intros H1 H2. unfold chk_object. cbn. now rewrite H1, H2. Qed.
-  Lemma chk_array_of it title l : forallb (V it) l = true ->
-    chk_object V root [("items", it); ("title", JStr title); ("type", JStr "array")] (JArr l) = true.
-  Proof. intros H. unfold chk_object. cbn. now rewrite H. Qed.
-  Lemma chk_array_of' it l : forallb (V it) l = true ->
+  Lemma chk_array_of it l : forallb (V it) l = true ->
     chk_object V root [("items", it); ("type", JStr "array")] (JArr l) = true.
   Proof. intros H. unfold chk_object. cbn. now rewrite H. Qed.
-  (* annotations do not matter *)
-  Lemma chk_anyOf2_annot a b rest d :
-    forallb known_kw (keys rest) = true ->
-    (forall k, In k ["type"; "const"; "enum"; "minItems"; "maxItems"; "uniqueItems"; "pattern"; "required";
-                     "properties"; "additionalProperties"; "prefixItems"; "items"; "anyOf"; "oneOf"; "$ref"] ->
-               lookup k rest = None) ->
-    (V a d = true \/ V b d = true) -> chk_object V root (("anyOf", JArr [a; b]) :: rest) d = true.
-  Proof.
-    intros Hk Hn H. unfold chk_object, known_keys. cbn [keys map fst forallb]. fold (keys rest). rewrite Hk.
-    cbn [lookup String.eqb Ascii.eqb Bool.eqb].
-    rewrite !Hn by (cbn; tauto). cbn.
-    destruct H as [H|H]; rewrite H; [reflexivity|]. now destruct (V a d).
-  Qed.
-
   Lemma chk_entry name d :
     chk_object V root [("$ref", JStr (ref_prefix ++ name))] d =
     match resolve root (ref_prefix ++ name) with Some s => V s d | None => false end.
@@ -102,10 +86,10 @@ Section Pieces.
   Lemma val_edges f (es : list sedge) :
     validates (S (S (S (S (S f))))) root sch_edges (JArr (map edge_json es)) = true.
   Proof.
-    unfold sch_edges. rewrite validates_S. apply chk_array_of. apply forallb_map_true. intros e. apply val_edge.
+    unfold sch_edges, sch_array. rewrite validates_S. apply chk_array_of. apply forallb_map_true. intros e. apply val_edge.
   Qed.
   Lemma val_version f : validates (S f) root sch_version (JStr "live") = true.
-  Proof. reflexivity. Qed.
+  Proof. now apply val_type. Qed.
   Lemma val_mditem f (m : option md) : validates (S (S f)) root sch_mditem (md_json md_fields m) = true.
   Proof.
     unfold sch_mditem. rewrite validates_S. destruct m; [apply chk_anyOf2_l|apply chk_anyOf2_r]; now apply val_type.
@@ -113,16 +97,12 @@ Section Pieces.
   Lemma val_meta f (m : option (list (option md))) :
     validates (S (S (S (S f)))) root sch_meta (meta_json md_fields m) = true.
   Proof.
-    unfold sch_meta. rewrite validates_S. apply chk_anyOf2_annot; [reflexivity| |].
-    - intros k Hk. cbn in Hk. repeat (destruct Hk as [<-|Hk]; [reflexivity|]). contradiction.
-    - destruct m as [l|]; [left|right; now apply val_type].
-      rewrite validates_S. apply chk_array_of'. apply forallb_map_true. intros x. apply val_mditem.
+    unfold sch_meta. rewrite validates_S. destruct m as [l|]; [apply chk_anyOf2_l|apply chk_anyOf2_r; now apply val_type].
+    unfold sch_array. rewrite validates_S. apply chk_array_of. apply forallb_map_true. intros x. apply val_mditem.
   Qed.
   Lemma val_encoder f : validates (S (S f)) root sch_encoder (str_opt_json encoder) = true.
   Proof.
-    unfold sch_encoder. rewrite validates_S. apply chk_anyOf2_annot; [reflexivity| |].
-    - intros k Hk. cbn in Hk. repeat (destruct Hk as [<-|Hk]; [reflexivity|]). contradiction.
-    - destruct encoder; [left|right]; now apply val_type.
+    unfold sch_encoder. rewrite validates_S. destruct encoder; [apply chk_anyOf2_l|apply chk_anyOf2_r]; now apply val_type.
   Qed.
 
   (* the operation objects are what the file's OpType definition accepts, whatever the parent index *)
@@ -132,7 +112,7 @@ Section Pieces.
   Lemma val_nodes f (ns : list (snode sop)) : ops_valid f ->
     validates (S f) root sch_nodes (JArr (map (node_json op_fields) ns)) = true.
   Proof.
-    intros Hop. unfold sch_nodes. rewrite validates_S. apply chk_array_of. apply forallb_map_true.
+    intros Hop. unfold sch_nodes, sch_array. rewrite validates_S. apply chk_array_of. apply forallb_map_true.
     intros n. apply Hop.
   Qed.
 
@@ -158,7 +138,9 @@ Lemma accepts_via_shape root name shape f d :
 Proof.
   unfold def_matches, self_equiv, accepts, entry. intros Hm Hr. rewrite validates_S, chk_entry.
   destruct (resolve root (ref_prefix ++ name)) as [s|]; [|discriminate].
+  unfold canon in Hm, Hr.
   rewrite <- (norm_preserves_validation f root s), <- (norm_preserves_validation f root shape).
+  rewrite <- (strip_preserves_validation f (norm root) (norm s)), <- (strip_preserves_validation f (norm root) (norm shape)).
   now apply schema_equiv_preserves_validation.
 Qed.
 
@@ -188,8 +170,8 @@ Section File.
     intros f mods exts Hf Hop Hext. change (6 + f) with (S (S (S (3 + f)))).
     rewrite (accepts_via_shape _ _ _ _ _ Hpkg Hself). unfold shape_Package, pkg_json.
     rewrite validates_S. apply chk_Package.
-    - unfold sch_modules. rewrite validates_S. apply chk_array_of. apply forallb_map_true. intros s.
+    - unfold sch_modules, sch_array. rewrite validates_S. apply chk_array_of. apply forallb_map_true. intros s.
       now apply doc_accepted.
-    - unfold sch_extensions. rewrite validates_S. apply chk_array_of. apply forallb_forall. exact Hext.
+    - unfold sch_extensions, sch_array. rewrite validates_S. apply chk_array_of. apply forallb_forall. exact Hext.
   Qed.
 End File.
